@@ -492,6 +492,7 @@ func c08R3(p *engine.Prog, r *engine.Report, af *ssa.Function) {
 	appStateRefreshRule(p, r, "C08-R6", map[string]bool{"AppState.FinalizePrecommit": true})
 	insertBlockStoresDiffRule(p, r, "C08-R6")
 	subChainOnCheckStateRule(p, r, "C08-R6")
+	everyElementWrittenRule(p, r, "C08-R6", "blockchain", "Blockchain.WriteTxIndex", "database.Repo.WriteTxIndex", "some transaction of an inserted block gets no index record (e.g. because one exists already): after a reorg a transaction mined on both branches stays indexed to the abandoned block, whose header is gone — the stored indexes are not those of a node that followed the fork from the start")
 	// the validator view a fork is judged against: built over the check state's own registry, rebuilt from empty
 	importRules(p, r, "C10", map[string]string{"C10-R4": "C08-R7", "C10-R6": "C08-R7"})
 	r.Floor("C08-R6", 3, "FinalizePrecommit, Precommit, insertBlock")
